@@ -30,8 +30,12 @@ CONSTANTS N,        \* number of endpoints returned by the registry; endpoint i 
           Steps,    \* time increments in seconds
           MaxSend,  \* bound on sendCount (state constraint of the exhaustive configurations)
           Reconn,   \* results ReConnect may have inside checkActive (subset of BOOLEAN)
-          Overlap   \* TRUE: the status check may run while a call is in flight (the real checker is a
+          Overlap,  \* TRUE: the status check may run while a call is in flight (the real checker is a
                     \* separate goroutine); FALSE: it runs between calls only (what the replay driver does)
+          KeepAlive,   \* TRUE: client keep-alive is configured (keep-alive-interval = KeepInterval s; the default is off):
+                       \* checkStatus first sends a one-way tars_ping on every adapter whose last ping is that old
+          PingNeutral  \* FALSE: as coded, a ping that could be SENT is booked as a sent and successful call
+                       \* (sendAdd, successAdd); TRUE: the candidate repair, a sent ping leaves the health record alone
 
 Eps == 1..N
 
@@ -41,6 +45,7 @@ FailInterval == 5    \* failInterval
 CheckTime    == 60   \* checkTime
 OverN        == 2    \* overN, with failRatio 0.5 written as 2 * fail >= send
 TryInterval  == 30   \* tryTimeInterval
+KeepInterval == 5    \* the keep-alive interval the replay configures (5000 ms): a multiple of the smallest time step
 
 VARIABLES h,        \* [Eps -> health record]
           created,  \* endpoints that have an AdapterProxy (made lazily by the first selection)
@@ -55,7 +60,8 @@ Min(a, b) == IF a < b THEN a ELSE b
 NoCall == [ep |-> 0, probe |-> FALSE]
 
 H0 == [status |-> TRUE, fail |-> 0, lastFail |-> 0, send |-> 0,
-       aSucc |-> FailInterval, aBlock |-> TryInterval, aCheck |-> CheckTime]
+       aSucc |-> FailInterval, aBlock |-> TryInterval, aCheck |-> CheckTime,
+       aKeep |-> IF KeepAlive THEN KeepInterval ELSE 0]          \* age of lastKeepAliveTime; not tracked without keep-alive
 \* since:    failed calls since the endpoint was last (re)instated, saturating at OverN
 \* run:      length of the current run of failed calls (no success in between), saturating at FailN
 \* runAge:   seconds since the first failure of that run, saturating at FailInterval
@@ -96,7 +102,7 @@ CallDone(c, ok) ==
          re == infl[c].probe /\ ok
          r1 == IF ok THEN [h[e] EXCEPT !.aSucc = 0, !.lastFail = 0]
                      ELSE [h[e] EXCEPT !.lastFail = Min(FailN, @ + 1), !.fail = @ + 1]
-         r2 == IF re THEN [r1 EXCEPT !.send = 0, !.fail = 0, !.lastFail = 0, !.aBlock = 0, !.aCheck = 0, !.status = TRUE]
+         r2 == IF re THEN [r1 EXCEPT !.send = 0, !.fail = 0, !.lastFail = 0, !.aBlock = 0, !.aCheck = 0, !.aKeep = 0, !.status = TRUE]
                      ELSE r1
      IN /\ h' = [h EXCEPT ![e] = r2]
         /\ active' = IF re THEN active \cup {e} ELSE active
@@ -122,13 +128,20 @@ CheckOne(r, rc) ==
        THEN [rec |-> [r EXCEPT !.aBlock = 0], first |-> FALSE, need |-> rc]
        ELSE [rec |-> r, first |-> FALSE, need |-> FALSE]
 
+(* AdapterProxy.doKeepAlive, called by checkStatus before checkActive when keep-alive is configured: a one-way    *)
+(* ping, at most one per KeepInterval.  The scripted servers keep listening, so the ping can always be sent.      *)
+Ping(r) ==
+  IF ~KeepAlive \/ r.aKeep < KeepInterval THEN r
+  ELSE IF PingNeutral THEN [r EXCEPT !.aKeep = 0]
+  ELSE [r EXCEPT !.aKeep = 0, !.send = @ + 1, !.aSucc = 0, !.lastFail = 0]
+
 (* The part of the manager's state checkStatus works on, as a value, so that one endpoint's step   *)
 (* and the whole pass are the same function.                                                       *)
 Mgr == [h |-> h, active |-> active, probeQ |-> probeQ, listed |-> listed, g |-> g]
 
 StepEp(m, e, rc) ==
   IF e \notin created THEN m
-  ELSE LET c     == CheckOne(m.h[e], rc)
+  ELSE LET c     == CheckOne(Ping(m.h[e]), rc)
            admit == c.need /\ e \notin m.listed
        IN [h      |-> [m.h EXCEPT ![e] = c.rec],
            active |-> IF c.first THEN m.active \ {e} ELSE m.active,
@@ -151,7 +164,8 @@ Advance(d) ==
   /\ Idle
   /\ h' = [e \in Eps |-> [h[e] EXCEPT !.aSucc  = Sat(@ + d, FailInterval),
                                        !.aBlock = Sat(@ + d, TryInterval),
-                                       !.aCheck = Sat(@ + d, CheckTime)]]
+                                       !.aCheck = Sat(@ + d, CheckTime),
+                                       !.aKeep  = IF KeepAlive THEN Sat(@ + d, KeepInterval) ELSE 0]]
   /\ g' = [e \in Eps |-> [g[e] EXCEPT !.runAge   = IF g[e].run = 0 THEN 0 ELSE Sat(@ + d, FailInterval),
                                        !.admitAge = Sat(@ + d, TryInterval)]]
   /\ UNCHANGED <<created, active, probeQ, listed, infl>>
@@ -169,7 +183,7 @@ SendBound == \A e \in Eps : h[e].send <= MaxSend
 Range(s) == {s[i] : i \in 1..Len(s)}
 TypeOK ==
   /\ h \in [Eps -> [status : BOOLEAN, fail : Nat, lastFail : 0..FailN, send : Nat,
-                    aSucc : 0..FailInterval, aBlock : 0..TryInterval, aCheck : 0..CheckTime]]
+                    aSucc : 0..FailInterval, aBlock : 0..TryInterval, aCheck : 0..CheckTime, aKeep : 0..KeepInterval]]
   /\ created \subseteq Eps /\ active \subseteq Eps /\ listed \subseteq Eps
   /\ probeQ \in Seq(Eps)
   /\ \A c \in Calls : infl[c] = NoCall \/ (infl[c].ep \in Eps /\ infl[c].probe \in BOOLEAN)
@@ -199,6 +213,9 @@ AllFailing(e) == g[e].run >= FailN /\ g[e].runAge >= FailInterval
 AllFailingLeaves ==
   [][\A e \in Eps : \A rc \in Reconn :
        (CheckEp(e, rc) /\ AllFailing(e) /\ active \ {e} # {}) => e \notin active']_vars
+\* stronger than C15 asks (no "as long as another endpoint is active"): decidable with one endpoint
+AllFailingLeavesAlways ==
+  [][\A e \in Eps : \A rc \in Reconn : (CheckEp(e, rc) /\ AllFailing(e)) => e \notin active']_vars
 \* "a blocked endpoint is then probed with a single call no more often than every 30 seconds" (admissions)
 ProbeSpacing == [][\A e \in Eps : (e \notin listed /\ e \in listed') => g[e].admitAge >= TryInterval]_vars
 ProbeIsOneCall ==   \* a probe call exists only by consuming one admission
@@ -212,6 +229,16 @@ ProbeDecides ==
                 ELSE infl[c].ep \notin active' /\ ~h'[infl[c].ep].status]_vars
 OnlyProbeReturns ==
   [][\A e \in Eps : Returned(e) => \E c \in Calls : infl[c].ep = e /\ infl[c].probe /\ CallDone(c, TRUE)]_vars
+(* The same clauses as a value: which of them the step (unprimed -> primed) breaks.  Gen_ / Plan_Failover record it   *)
+(* with every step, so that a behaviour the real code FOLLOWS and TLC marks is a reproduced violation.            *)
+StepBreaks(isCheck) ==
+     {"endpoint-left-rotation-with-fewer-than-two-failures" : e \in {x \in Eps : TakenOut(x) /\ g[x].since < OverN}}
+  \cup {"all-failing-endpoint-still-in-rotation-after-status-check" :
+           e \in {x \in Eps : isCheck /\ x \in created /\ AllFailing(x) /\ x \in active /\ active \ {x} # {} /\ x \in active'}}
+  \cup {"probe-admitted-less-than-30s-after-the-previous" : e \in {x \in Eps : x \notin listed /\ x \in listed' /\ g[x].admitAge < TryInterval}}
+  \cup {"blocked-endpoint-returned-without-successful-probe" :
+           e \in {x \in Eps : Returned(x) /\ ~\E c \in Calls : infl[c].ep = x /\ infl[c].probe /\ infl'[c] = NoCall}}
+
 \* "when every endpoint is blocked calls are still attempted on some endpoint instead of failing outright"
 CallsGoSomewhere == Cands # {} /\ (active = {} /\ ~IsProbe => Cands = Eps)
 ====
